@@ -167,7 +167,7 @@ class Ctx:
         if env:
             e.update(env)
         cmd = ["timeout", str(timeout), "tlc", "-workers", str(workers), "-metadir", meta, "-cleanup",
-               "-noGenerateSpecTE", "-config", cfg]
+               "-noGenerateSpecTE", "-checkpoint", "0", "-config", cfg]
         if coverage:
             cmd += ["-coverage", "1"]
         if simulate:
